@@ -60,6 +60,25 @@ class WindowMonitor:
         if not rec.routed:
             if rec.handlers:
                 ck.violation('handler-ran-for-unrouted-datagram', {}, case)
+            # a datagram the controller put aside before any IKE_SA saw it. If an IKE_SA of the table owns its SPIs, the datagram is authentic under that IKE_SA's
+            # keys and it is a copy of the request answered last, the stored response is still owed ("on every IKE_SA": whatever state it is in)
+            if not resp and h['exch'] != 34:
+                for s_ in rec.before:
+                    sa_ = self.objs.get(s_['oid'])
+                    if sa_ is None or s_['oid'] not in after or not s_['has_keys'] or (h['spi_i'], h['spi_r']) != (bytes(sa_.spi_i), bytes(sa_.spi_r)):
+                        continue
+                    if bool(h['flags'] & 0x08) == sa_.is_initiator:
+                        continue
+                    keys = observe.crypto_keys(sa_.peer_crypto)
+                    if keys is None or not ikecrypto.sk_verify(data, keys[0], keys[1]):
+                        continue
+                    ck.count('win.authentic_request_never_shown_to_its_ike_sa')
+                    if h['mid'] == s_['peer_msg_id'] - 1 and (s_['oid'], h['mid']) in self.first_reply:
+                        ck.count('win.replay_of_previous_request')
+                        replies = [bytes(d[2]) for d in rec.sent if _hdr(d[2]) and _hdr(d[2])['flags'] & 0x20]
+                        if replies != [self.first_reply[(s_['oid'], h['mid'])]]:
+                            ck.violation(f'retransmitted-request-not-answered-with-the-stored-response:{EXCH.get(h["exch"], str(h["exch"]))}:put-aside-before-the-ike-sa-saw-it',
+                                         {'state': s_['state'], 'trace': sim.trace[-10:]}, case)
             return
         oid = rec.routed[0][0]
         sa = self.objs.get(oid)
